@@ -125,6 +125,10 @@ def harvest(sid, prop):
                 if len(kept) >= 2:
                     break
         print(sid, prop, "check rc", rc, "kept", [os.path.basename(k) for k in kept])
+        sigs = [l.split("signature:", 1)[1].strip() for l in out.splitlines() if "signature:" in l]
+        verdict = {0: "MISSED", 1: "caught", 2: "inconclusive"}.get(rc, "rc=%s" % rc)
+        with open(os.path.join(VERIF, "seeded", "RESULTS.tsv"), "a") as f:
+            f.write("%s\t%s\t%s\t%s\t%s\n" % (sid, prop, verdict, ",".join(sorted(set(sigs)))[:200], ",".join(os.path.basename(k) for k in kept)))
     finally:
         sh("git checkout -- .", "/repo")
     return kept
